@@ -17,6 +17,11 @@ def lonlat(c):
     return '[' + num(sp.lon.to_value('deg')) + 'deg, ' + num(sp.lat.to_value('deg')) + 'deg]'
 
 
+def lonlat_nd(c, nd):
+    sp = c.spherical
+    return '[' + num(sp.lon.to_value('deg'), nd) + 'deg, ' + num(sp.lat.to_value('deg'), nd) + 'deg]'
+
+
 def ln(q, radunit='deg'):
     return num(q.to_value(radunit)) + radunit
 
